@@ -13,7 +13,7 @@ mod sexp;
 mod swap;
 mod types;
 
-use gen::{gen_val, sequences, LimitGen, RandGen};
+use gen::{gen_val, sequences, LimitGen, NearLimit, RandGen};
 use hx_common::{Args, Recorder, Rng};
 use run::{parse_header, CaseOut, Cx, FixedOps, OpSource, Prop};
 use sexp::{parse_path, print_path, Shape, Step, Val};
@@ -36,6 +36,9 @@ impl Runner<'_> {
                 self.cx.rec.bump(&format!("shape:{}", e.id));
                 if hdr.swap {
                     (e.run_swap)(header, &hdr, src, &mut self.cx)
+                } else if hdr.account && self.cx.prop == Prop::C03 {
+                    self.cx.rec.bump("backing:account");
+                    (e.run_acct)(header, &hdr, src, &mut self.cx)
                 } else {
                     (e.run)(header, &hdr, src, &mut self.cx)
                 }
@@ -339,6 +342,39 @@ fn gen_c03(runner: &mut Runner, rng: &mut Rng, args: &Args, extra: &mut BTreeMap
         }
     }
     extra.insert("swap_cases".into(), serde_json::json!(nswap));
+    // ---- native-account backing (`impl UnsizedTypeDataAccess for AccountInfo`): refusals come from the real
+    //      resize limit; histories keep using the SAME wrapper after a refused growth
+    let mut nacct = 0u64;
+    let acct_rounds = if reduced { 1 } else if thorough { 12 } else { 2 };
+    for round in 0..acct_rounds {
+        for (i, (tid, path)) in LIMITS.iter().enumerate() {
+            let e = reg.iter().find(|e| e.id == *tid).unwrap();
+            // scripted: to the limit, one past (refused), then shrink / insert not at the end on the same wrapper
+            let two_phase = round % 2 == 1;
+            let v = if round == 0 { e.shape.default_val() } else { gen_val(&e.shape, rng, 0) };
+            let header = format!("case acct-limit{i}-{round}-{tid} {} {}", e.shape_s, v.print());
+            runner.cx.rec.bump("source:account_limit");
+            runner.run(&header, &mut LimitGen { path: parse_path(path).unwrap(), step: 0, two_phase, keep_wrapper: true });
+            // random: fill to within a few bytes of the limit, then a random history
+            let v = gen_val(&e.shape, rng, 0);
+            let header = format!("case acct-near{i}-{round}-{tid} {} {}", e.shape_s, v.print());
+            runner.cx.rec.bump("source:account_near_limit");
+            let delta = rng.below(6) as usize;
+            let inner = RandGen::new(rng.fork(), 12 + rng.below(14) as usize);
+            runner.run(&header, &mut NearLimit { path: parse_path(path).unwrap(), delta, done: false, inner });
+            nacct += 2;
+        }
+        // plain random histories on an account, a few curated shapes
+        for tid in ["T13", "T19", "T26", "T29", "T30", "T31", "T06", "T10"] {
+            let e = reg.iter().find(|e| e.id == tid).unwrap();
+            let v = if rng.chance(1, 2) { e.shape.default_val() } else { gen_val(&e.shape, rng, 0) };
+            let header = format!("case acct-r{round}-{tid} {} {}", e.shape_s, v.print());
+            runner.cx.rec.bump("source:account_random");
+            runner.run(&header, &mut RandGen::new(rng.fork(), 15 + rng.below(20) as usize));
+            nacct += 1;
+        }
+    }
+    extra.insert("account_backed_cases".into(), serde_json::json!(nacct));
     // ---- growth to exactly orig+10240 and one past, both layouts (last: a broken build dies here on a guard
     //      page, which ends the run; the cheaper gates above should have spoken first)
     for (i, (tid, path)) in LIMITS.iter().enumerate() {
@@ -348,7 +384,7 @@ fn gen_c03(runner: &mut Runner, rng: &mut Rng, args: &Args, extra: &mut BTreeMap
                 let v = if two_phase { gen_val(&e.shape, rng, 0) } else { e.shape.default_val() };
                 let header = format!("case limit{i}{}{}-{tid} {} {}{}", if two_phase { "b" } else { "a" }, end as u8, e.shape_s, v.print(), lay(end));
                 runner.cx.rec.bump("source:limit");
-                runner.run(&header, &mut LimitGen { path: parse_path(path).unwrap(), step: 0, two_phase });
+                runner.run(&header, &mut LimitGen { path: parse_path(path).unwrap(), step: 0, two_phase, keep_wrapper: false });
             }
         }
     }
@@ -476,7 +512,7 @@ fn main() {
                 for two_phase in [false, true] {
                     let header = header_for(e, &format!("limit{i}{}-{tid}", if two_phase { "b" } else { "a" }), &mut rng, !two_phase);
                     runner.cx.rec.bump("source:limit");
-                    runner.run(&header, &mut LimitGen { path: parse_path(path).unwrap(), step: 0, two_phase });
+                    runner.run(&header, &mut LimitGen { path: parse_path(path).unwrap(), step: 0, two_phase, keep_wrapper: false });
                 }
             }
             // ---- 3. exhaustive short sequences over a small alphabet on the smallest shapes
